@@ -281,7 +281,7 @@ func gen(r *lib.Rand, tier string, emit func(string)) {
 	thorough := tier == "thorough"
 	mul := 1
 	if thorough {
-		mul = 12
+		mul = 8
 	}
 	var fx [][]byte
 	for _, f := range fixtures {
